@@ -98,29 +98,28 @@ Proof.
   rewrite py_in_memz8. destruct (C08Model.memz a taxa); reflexivity.
 Qed.
 
-(* taxon.label: the namespace gives every taxon of the tree a label *)
-Variable ns : C08Model.nspace.
-Variable taxon_label : Z -> Z.
-Hypothesis Hlab : forall nd a, In nd (ids t) -> taxon h0 nd = Some a -> C08Model.tax_label ns a = Some (taxon_label a).
+(* the label wrappers resolve the labels through the namespace: get_taxa is
+   TaxonNamespace.get_taxa(labels=...) of the tree's namespace (C08Model.get_taxa ns cs for the model) *)
+Variable get_taxa : list Z -> list Z.
 
 Theorem gen_extract_tree_with_taxa_labels labels :
-  xrel on h0 (Tree_extract_tree_with_taxa_labels HX taxon_label labels on sup (mkX h0 xs0 xe0))
-       (C08Model.extract_tree_with_taxa_labels ns labels sup t).
+  xrel on h0 (Tree_extract_tree_with_taxa_labels HX get_taxa labels on sup (mkX h0 xs0 xe0))
+       (C08Model.extract_tree_with_taxa (get_taxa labels) sup t).
 Proof.
-  unfold Tree_extract_tree_with_taxa_labels. rewrite mres_eta. apply wrapper_ok.
-  intros s nd Hin Hg. unfold Tree_extract_tree_with_taxa_labels__node_filter_fn, C08Model.with_labels_p. xsimp.
-  unfold taxon at 1. rewrite Hg. fold (taxon h0 nd). destruct (taxon h0 nd) as [a|] eqn:Et; [|reflexivity].
-  rewrite (Hlab nd a Hin Et). rewrite py_in_memz8. destruct (C08Model.memz (taxon_label a) labels); reflexivity.
+  unfold Tree_extract_tree_with_taxa_labels. cbv zeta. rewrite mres_eta. apply wrapper_ok.
+  intros s nd Hin Hg. unfold Tree_extract_tree_with_taxa_labels__node_filter_fn, C08Model.with_taxa_p. xsimp.
+  unfold taxon. rewrite Hg. destruct (c_taxon (get h0 nd)) as [a|]; [|reflexivity].
+  rewrite py_in_memz8. destruct (C08Model.memz a (get_taxa labels)); reflexivity.
 Qed.
 
 Theorem gen_extract_tree_without_taxa_labels labels :
-  xrel on h0 (Tree_extract_tree_without_taxa_labels HX taxon_label labels on sup (mkX h0 xs0 xe0))
-       (C08Model.extract_tree_without_taxa_labels ns labels sup t).
+  xrel on h0 (Tree_extract_tree_without_taxa_labels HX get_taxa labels on sup (mkX h0 xs0 xe0))
+       (C08Model.extract_tree_without_taxa (get_taxa labels) sup t).
 Proof.
-  unfold Tree_extract_tree_without_taxa_labels. rewrite mres_eta. apply wrapper_ok.
-  intros s nd Hin Hg. unfold Tree_extract_tree_without_taxa_labels__node_filter_fn, C08Model.without_labels_p. xsimp.
-  unfold taxon at 1. rewrite Hg. fold (taxon h0 nd). destruct (taxon h0 nd) as [a|] eqn:Et; [|reflexivity].
-  rewrite (Hlab nd a Hin Et). rewrite py_in_memz8. destruct (C08Model.memz (taxon_label a) labels); reflexivity.
+  unfold Tree_extract_tree_without_taxa_labels. cbv zeta. rewrite mres_eta. apply wrapper_ok.
+  intros s nd Hin Hg. unfold Tree_extract_tree_without_taxa_labels__node_filter_fn, C08Model.without_taxa_p. xsimp.
+  unfold taxon. rewrite Hg. destruct (c_taxon (get h0 nd)) as [a|]; [|reflexivity].
+  rewrite py_in_memz8. destruct (C08Model.memz a (get_taxa labels)); reflexivity.
 Qed.
 
 End Wrappers.
